@@ -373,6 +373,11 @@ impl Prop for C11 {
                 }
             };
             match r {
+                Err(e) if e.msg.starts_with("timeout:") => {
+                    res.failures.push(OracleFailure { what: format!("{} ({})", e.msg, mode_str(op.mode)), key: Some("op_timeout".into()), line: ln });
+                    res.outputs.push("err timeout".into());
+                    res.tags.push("err:timeout".into());
+                }
                 Err(e) => {
                     if std::env::var("C11_DEBUG").is_ok() {
                         eprintln!("line {ln}: {:?}: {}", e.kind, e.msg);
